@@ -373,10 +373,10 @@ func checkC10(c *core.Ctx, r *core.Report) {
 	flushBlock := c.Obj(pkgMetrics, "MetricsBlock.flushBlock")
 	flushNames := c.Obj(pkgMetrics, "MetricsSegment.FlushMetricNames")
 	addMeta := c.Obj(pkgMMeta, "AddMetricsMetaEntry")
-	cleanDp := c.Obj(pkgMetrics, "MetricsBlock.cleanAndInitNewDpWal")
-	cleanMN := c.Obj(pkgMetrics, "MetricsSegment.cleanAndInitNewMNameWal")
-	delDp := c.Obj(pkgMetrics, "MetricsBlock.deleteDpWalFiles")
-	delMN := c.Obj(pkgMetrics, "MetricsSegment.deleteMNameWALFile")
+	cleanDp := c.TryObj(pkgMetrics, "MetricsBlock.cleanAndInitNewDpWal")
+	cleanMN := c.TryObj(pkgMetrics, "MetricsSegment.cleanAndInitNewMNameWal")
+	delDp := c.TryObj(pkgMetrics, "MetricsBlock.deleteDpWalFiles")
+	delMN := c.TryObj(pkgMetrics, "MetricsSegment.deleteMNameWALFile")
 
 	type rule struct {
 		fn      *ssa.Function
